@@ -132,7 +132,7 @@ Section Inv.
 
   Lemma step_graph s e : graph_ok (cns s) (edges s) -> graph_ok (cns (step s e)) (edges (step s e)).
   Proof.
-    intros G. unfold CallGraph.step. destruct (dead s); [exact G|]. destruct e as [i|j nocse|j ad|j ok cached a r ch vt jt et|].
+    intros G. unfold CallGraph.step. destruct (dead s && negb (is_newrun e)); [exact G|]. destruct e as [i|j nocse|j ad|j ok cached a r ch vt jt et|].
     - destruct (lookup_info _ _); [exact G|]. destruct (ji_prov i); simpl; auto.
       match goal with |- graph_ok (cns (job_start i ?x)) _ => destruct (job_start_graph i x) as [A B]; rewrite A, B end.
       exact G.
@@ -197,7 +197,7 @@ Section Inv.
     graph_ok (cns s) (edges s) -> In p (map cn_hash (cns s)) ->
     edges_of p (edges (step s e)) = edges_of p (edges s) /\ In p (map cn_hash (cns (step s e))).
   Proof.
-    intros G Hin. unfold CallGraph.step. destruct (dead s); [auto|].
+    intros G Hin. unfold CallGraph.step. destruct (dead s && negb (is_newrun e)); [auto|].
     destruct e as [i|j nocse|j ad|j ok cached a r ch vt jt et|].
     - destruct (lookup_info _ _); [auto|]. destruct (ji_prov i); simpl; auto.
       match goal with |- context [job_start i ?x] => destruct (job_start_graph i x) as [A B]; rewrite A, B end. auto.
